@@ -30,8 +30,9 @@ def eval_program(arg) -> dict:
     two_mts_provides = stream % 6 == 5 and not want_mc
 
     def accept(info):
-        if two_mts_provides and len(info['provides']) < 2:
-            return False
+        if two_mts_provides and \
+                sum(1 for p in info['provides'] if info['ports'][p]['n_in']) < 2:
+            return False        # two rerouted provides ports that both have in-events
         if need_two:
             return len(info['requires']) >= 2
         if need_ref:
